@@ -144,7 +144,7 @@ def tlc(d, module, cfg, workers=None, timeout=600, simulate=None, depth=None, de
         cmd += ["-depth", str(depth)]
     cmd += list(extra) + [module]
     e = dict(os.environ)
-    jopts = []
+    jopts = ["-Djava.io.tmpdir=" + md]   # TLC's scratch directories go with the metadir, not to /tmp
     if deque:
         jopts.append("-Dtlc2.tool.queue.IStateQueue=StateDeque")
         jopts.append("-XX:ParallelGCThreads=2")
